@@ -24,6 +24,9 @@ class Ctx:
         self.explanation = ""
         self.assumptions = []
         self.not_decided = ""
+        # functions whose early exits are each validated by their own table rule (the early-exit
+        # census does not need to freeze them: a new exit is judged by that rule)
+        self.tabled_exits = set()
 
     # ------------------------------------------------------------------
     def count(self, name, n=1):
